@@ -980,7 +980,7 @@ class StoreRun:
                         expect_refusal = "destination exists"
                     else:
                         par, name = new.parent_and_name(df, dp, create=True)
-                        if par is None:
+                        if par is None or par.kind != "group":
                             raise Skip("bad destination")
                         par.children[name] = ("x", sf, sp)
                 elif dp == "/":
